@@ -39,4 +39,3 @@ func cmdVocab() {
 	sort.Strings(bins)
 	json.NewEncoder(os.Stdout).Encode(map[string]any{"functions": fns, "aggregators": aggs, "operators": bins})
 }
-
